@@ -58,7 +58,38 @@ theorem driver_checks_hold :
   have h := inv_run hi ops hops
   exact ⟨h.stakedIdxSound, h.stakedIdxComplete, h.chainIdxSound, h.chainIdxComplete, h.queueSound, h.queueComplete⟩
 
+omit hops ops in
+/-- Lookup by chain (`GetValidatorsByChain`, a prefix scan): exact when all indexed network identifiers have
+the length of the queried one (the usual 2 bytes). -/
+theorem chain_lookup_exact_partial (c : Bytes) (hlen : ∀ e ∈ s.chainIdx, e.1.length = c.length) (a : Bytes) :
+    a ∈ validatorsByChain s c ↔ ∃ v, aget s.vals a = some v ∧ v.status = .staked ∧ c ∈ v.chains := by
+  unfold validatorsByChain
+  simp only [List.mem_map, List.mem_filter]
+  constructor
+  · rintro ⟨e, ⟨he, hp⟩, rfl⟩
+    have hpre : c <+: e.1 ++ e.2 := List.isPrefixOf_iff_prefix.mp hp
+    have hl := hlen e he
+    have hc : c = e.1 := by
+      have := List.prefix_iff_eq_take.mp hpre
+      rw [this, ← hl, List.take_left']
+      rfl
+    subst hc
+    rw [List.drop_left']
+    · exact (hi.chain e).mp he
+    · rfl
+  · rintro ⟨v, hv, hs, hc⟩
+    refine ⟨(c, a), ⟨(hi.chain (c, a)).mpr ⟨v, hv, hs, hc⟩, ?_⟩, ?_⟩
+    · exact List.isPrefixOf_iff_prefix.mpr (List.prefix_append _ _)
+    · simp
+
 omit hi hops
+
+/-- … and wrong as soon as a 1-byte identifier is queried while 2-byte identifiers starting with the same byte
+are indexed (`ValidateNetworkIdentifier` accepts both lengths): every node of chain `00 01` is returned for
+chain `00`, as a 21-byte pseudo-address -/
+theorem chain_lookup_prefix_collision :
+    ∃ (s : State), Inv s ∧ ∃ x ∈ validatorsByChain s [0], aget s.vals x = none :=
+  ⟨Ex.s0, Ex.inv_s0, [1, 2], by decide, by decide⟩
 
 example : Ex.s0.stakedIdx = [(25, Ex.C), (30, Ex.B), (20, Ex.A)] ∧
     Ex.s0.chainIdx = [([0, 2], Ex.C), ([0, 2], Ex.B), ([0, 1], Ex.B), ([0, 1], Ex.A)] := by decide
